@@ -388,7 +388,7 @@ struct Runner
       else
       {
         op += " store " + ln + " " + std::to_string(a.value);
-        obs = "idx=" + std::to_string(a.idx);
+        if (ln == "newf" || ln == "lvl") { obs = "idx=" + std::to_string(a.idx); }
       }
     }
     else { op += " step"; }
